@@ -23,6 +23,10 @@ def gen_upg():
                 ("c11_11", "%d", "(int) (MHD_IS_HTTP_VER_1_1_COMPAT (MHD_HTTP_VER_1_1))"),
                 ("c11_12", "%d", "(int) (MHD_IS_HTTP_VER_1_1_COMPAT (MHD_HTTP_VER_1_2__1_9))"),
                 ("c11_fut", "%d", "(int) (MHD_IS_HTTP_VER_1_1_COMPAT (MHD_HTTP_VER_FUTURE))")])
+    # behavioural probe of MHD_str_has_token_caseless_: does a comma that ends a partly matching element
+    # start the next element (repaired code, build/fixes/F17b.diff) or is the next element skipped?
+    v2 = c_eval('#include "MHD_config.h"\n#include "mhd_str.c"\n',
+                [("comma", "%d", "(int) MHD_str_has_token_caseless_ (\"up, upgrade\", \"upgrade\", 7)")])
     cc = src("src/microhttpd/connection.c")
     # the token looked for in the "Connection" header of an upgrade response (not nameable from C)
     m = re.search(r"MHD_str_has_s_token_caseless_\s*\(\s*conn_header->value\s*,\s*\"([^\"]*)\"\s*\)", cc)
@@ -44,6 +48,8 @@ def gen_upg():
         + "/-- MHD_IS_HTTP_VER_1_1_COMPAT evaluated for HTTP/1.0, 1.1, 1.2-1.9, 2.0+ -/\n" \
         + "def compat11 : List Bool := [%s]\n" % ", ".join("true" if v[k] == "1" else "false"
                                                           for k in ("c11_10", "c11_11", "c11_12", "c11_fut")) \
+        + "/-- MHD_str_has_token_caseless_: a comma that stops a partial match ends that element only (probe \"up, upgrade\") -/\n" \
+        + "def tokCommaEndsElement : Bool := %s\n" % ("true" if v2["comma"] == "1" else "false") \
         + "end Mhd.Gen.Upg\n"
     return vlib.write_if_changed(os.path.join(GEN, "Upg.lean"), out)
 
@@ -571,8 +577,10 @@ def oracle_case(case_lines, hlines, threaded):
             elif t in ("eof", "rst"):
                 S(c)["end"] = t
         # 101 head must be complete at the first report after the hand-over
+        # (ops that drain the client side: round, rounds, stop, arrive)
         for c, x in conn.items():
-            if x["upgraded"] and x["wire_at_upgrade"] is None and x.get("upg_op") == i:
+            if x["upgraded"] and x["wire_at_upgrade"] is None and x.get("upg_op", 1 << 30) <= i \
+                    and o in ("round", "rounds", "stop", "arrive"):
                 x["wire_at_upgrade"] = x["wire"]
         if o == "stop":
             stop_seen[0] = True
@@ -612,6 +620,14 @@ def oracle_case(case_lines, hlines, threaded):
                     err.append("c=%d: upgrade response accepted although: %s" % (c, "; ".join(why)))
             elif code == 101:
                 err.append("c=%d: 101 accepted with a plain response object" % c)
+        # the feature must work: a refused upgrade response must violate some precondition
+        for (r, rid, code, _u) in x["refused"]:
+            rs = resps.get(rid, {"kind": "copy", "code": 200, "conn": None})
+            if rs["kind"].startswith("upgrade") and cfg.get("upgrade") == "1" and code == 101 and rs["conn"] is not None \
+                    and spec_has_upgrade_token(rs["conn"]) and not re.search(rb"(^|, )u(p(g(r(a(d)?)?)?)?)?,", rs["conn"].lower()) \
+                    and (x["ver"].get(r) == b"HTTP/1.1" or re.match(rb"HTTP/1\.[2-9]$", x["ver"].get(r, b""))):
+                # (values in which a proper prefix of the token precedes a comma are left out: has_token misses those)
+                err.append("c=%d: upgrade response meeting every precondition was refused" % c)
         # refused, then an ordinary response: must be served
         for (r, rid, code, _u) in x["refused"]:
             later = [a for a in x["accepted"] if a[0] == r]
@@ -683,8 +699,11 @@ def sig_of(msg):
 class Spec:
     props_module = "Mhd.Props.C20"
     lean_targets = ["Mhd.Props.C20", "drv_upg"]
-    required_theorems = ["Mhd.C20.lossless_handover", "Mhd.C20.wire_is_head101", "Mhd.C20.no_daemon_io_after_handover",
-                         "Mhd.C20.released_exactly_once_at_stop", "Mhd.C20.close_action_releases_in_next_round",
+    required_theorems = ["Mhd.C20.lossless_handover", "Mhd.C20.head_found_for_every_split",
+                         "Mhd.C20.following_bytes_reach_application", "Mhd.C20.wire_accounting", "Mhd.C20.wire_is_head101",
+                         "Mhd.C20.upgrade_reply_is_head101", "Mhd.C20.no_daemon_io_after_handover",
+                         "Mhd.C20.released_exactly_once_at_stop", "Mhd.C20.released_exactly_once_after_stop",
+                         "Mhd.C20.never_twice", "Mhd.C20.close_action_releases_in_next_round",
                          "Mhd.C20.refused_unchanged", "Mhd.C20.unmet_precondition_refused",
                          "Mhd.C20.ordinary_response_after_refusal_accepted"]
     trusted_base = ["Lean 4 kernel", "axioms: propext, Classical.choice, Quot.sound at most (audited per theorem)",
@@ -769,6 +788,10 @@ class Spec:
                 mseq, mwire, mglob = canon_driver(mper[idx])
                 if "unsupported" in " ".join(mglob):
                     stats["driver_unsupported"] = stats.get("driver_unsupported", 0) + 1
+                elif cs.relaxed and any(g.startswith("bad-op") for g in hglob):
+                    # internal thread slower than the script's pauses: an application op came before the
+                    # hand-over.  Timing, not behaviour: the oracle alone judges this case.
+                    stats["thr_timing_oracle_only"] = stats.get("thr_timing_oracle_only", 0) + 1
                 else:
                     for c in sorted(set(hseq) | set(mseq)):
                         a, b = hseq.get(c, []), mseq.get(c, [])
